@@ -17,6 +17,7 @@ import Driver.C12
 import Driver.C13
 import Driver.C14
 import Driver.C15
+import Driver.C16
 import Driver.C17
 import Driver.C18
 import Driver.C19
@@ -41,6 +42,7 @@ def step (line : String) : String :=
   | "C13" :: ts => stepC13 ts
   | "C14" :: ts => stepC14 ts
   | "C15" :: ts => stepC15 ts
+  | "C16" :: ts => stepC16 ts
   | "C17" :: ts => stepC17 ts
   | "C18" :: ts => stepC18 ts
   | "C19" :: ts => stepC19 ts
